@@ -252,7 +252,13 @@ func (t *Table) Delete(path *Path) {
 				}
 			}
 			if len(routesNow) < len(routes) {
-				t.routes[targetKey] = routesNow
+				if len(routesNow) == 0 {
+					delete(t.routes, targetKey)
+					_ = t.store.Delete(routePrefix + target.String())
+				} else {
+					t.routes[targetKey] = routesNow
+					_ = t.store.Put(routePrefix+target.String(), routesNow)
+				}
 			}
 		}
 	})
